@@ -3,7 +3,7 @@ import os, sys, time, json, random, re, subprocess
 from . import core
 from .core import Case, hx, unhx
 from .gen import programs
-from .gen.sexp import render, Q, Str
+from .gen.sexp import render, Q, Str, BQ, UQ, SPL, FQ, Dot, Wrap
 
 TRUSTED_BASE = [
     'Coq 8.16.1 kernel (coqc; coqchk in the thorough tier); no native_compute',
@@ -1933,3 +1933,109 @@ def check_C10(tier, seed):
     return res.finish(gate)
 
 CHECKS['C10'] = check_C10
+
+# ---------------------------------------------------------------- C11
+class ListExprGen:
+    def __init__(self, rng): self.r = rng
+    def L(self, d):
+        r = self.r
+        if d <= 0 or r.random() < 0.25:
+            return r.choice(['l1', 'l2', 'l3', 'lnil', Q([4, 1, 3]), Q([]), None, Q([7]), ['list', 5, 6]])
+        c = r.choice(['append', 'append3', 'appendnil', 'sort', 'mapcar', 'filter', 'cons', 'cdr', 'nthcdr', 'last', 'bq', 'bq2', 'seqmap', 'consvar', 'reduce', 'let', 'if', 'dolist', 'append-cons'])
+        s = lambda: self.L(d - 1)
+        if c == 'append': return ['append', s(), s()]
+        if c == 'append3': return ['append', s(), s(), s()]
+        if c == 'appendnil': return ['append', None, s(), s()]
+        if c == 'append-cons': return ['append', ['cons', 0, s()], s()]
+        if c == 'sort': return ['sort', s(), r.choice([Q('<'), Q('>'), ['lambda', ['p', 'q'], ['<', 'p', 'q']]])]
+        if c == 'mapcar': return [r.choice(['mapcar', 'seq-map']), r.choice([Q('1+'), ['lambda', ['p'], ['*', 'p', 2]]]), s()]
+        if c == 'filter': return ['seq-filter', ['lambda', ['p'], ['<', 'p', 4]], s()]
+        if c == 'cons': return ['cons', r.choice([0, 9]), s()]
+        if c == 'consvar': return ['cons', r.choice([0, 9]), r.choice(['l1', 'l3'])]
+        if c == 'cdr': return [r.choice(['cdr', 'cddr']), s()]
+        if c == 'nthcdr': return ['nthcdr', r.choice([0, 1, 2]), s()]
+        if c == 'last': return ['last', s()]
+        if c == 'bq': return BQ([SPL(s()), 8, SPL(s())])
+        if c == 'bq2': return BQ([0, SPL(s())])
+        if c == 'seqmap': return ['seq-map', Q('1-'), s()]
+        if c == 'reduce': return ['seq-reduce', ['lambda', ['acc', 'e'], ['cons', 'e', 'acc']], s(), r.choice([None, 'l1', Q([0])])]
+        if c == 'let': return ['let', [['tmp', s()]], ['append', 'tmp', s()]]
+        if c == 'if': return ['if', ['consp', s()], s(), s()]
+        return ['let', [['acc', None]], ['dolist', ['e', s()], ['setq', 'acc', ['cons', 'e', 'acc']]], 'acc']
+    def other(self, d):
+        r = self.r
+        return r.choice([['length', self.L(d)], ['nth', 1, self.L(d)], ['assoc', Q('b'), 'al'], ['alist-get', Q('a'), 'al'], ['plist-get', 'pl', Q('b')],
+                         ['seq-find', ['lambda', ['p'], ['>', 'p', 1]], self.L(d)], ['equal', self.L(d), self.L(d)], ['concat', 's1', Str('x'), 's1'],
+                         ['format', Str('%s-%S'), 's1', self.L(d)], ['prin1-to-string', self.L(d)], ['list', self.L(d), self.L(d)],
+                         ['mapcar', Q('car'), 'al'], ['seq-filter', Q('consp'), 'al'], ['sort', 'al', ['lambda', ['p', 'q'], ['>', ['cdr', 'p'], ['cdr', 'q']]]],
+                         ['append', 'al', 'al'], ['append', 'pl', Q(['z'])], BQ(['k', SPL('al'), UQ('s1'), SPL('pl')])])
+
+C11_PRE = "(setq l1 '(3 1 2)) (setq l2 (list 6 5 4)) (setq l3 '(1)) (setq lnil nil) (setq al '((a . 1) (b . 2) (c . 3))) (setq pl '(a 1 b 2)) (setq s1 \"str\")"
+C11_VARS = ['l1', 'l2', 'l3', 'lnil', 'al', 'pl', 's1']
+C11_EXPECT = {'l1': '(3 1 2)', 'l2': '(6 5 4)', 'l3': '(1)', 'lnil': 'nil', 'al': '((a . 1) (b . 2) (c . 3))', 'pl': '(a 1 b 2)', 's1': '"str"'}
+
+def check_C11(tier, seed):
+    res = Result('C11', tier, seed); res.pending = []
+    gate = proof_gate('C11')
+    core.build_model(); core.build_impl()
+    rng = random.Random(seed)
+    g = ListExprGen(rng)
+    cases = []; exprs = []
+    n = tier_n(tier, 1500, 40000)
+    for i in range(n):
+        e = g.L(rng.choice([1, 2, 3, 4])) if rng.random() < 0.7 else g.other(rng.choice([0, 1, 2]))
+        t = render(e)
+        exprs.append(t)
+        c = Case('m%d' % i)
+        c.eval(C11_PRE); c.vars(C11_VARS)
+        c.eval('(defun run () %s)' % t)
+        c.eval('(list (run) (run) (run))'); c.vars(C11_VARS)
+        c.eval(t); c.eval(t); c.vars(C11_VARS)
+        c.eval('(run)')
+        cases.append(c)
+    impl, model, dis = differential(res, cases)
+    nv = 0
+    distinct = set()
+    for c, t in zip(cases, exprs):
+        ls = impl.get(c.cid, [])
+        if len(ls) < 9: continue
+        def val(l):
+            _, kind, payload, _ = core.parse_line(l)
+            return unhx(payload) if kind == 'V' else kind
+        def vars_of(l):
+            _, kind, payload, _ = core.parse_line(l)
+            out = {}
+            for a in payload.split(';'):
+                name, rest = a.split('=')
+                out[unhx(name)] = ','.join(unhx(v) for v in rest.split(':', 1)[1].split(',') if v)
+            return out
+        why = None
+        three = val(ls[3])
+        if three not in ('E',) and three.startswith('('):
+            # (r1 r2 r3): identical printed thirds
+            inner = three[1:-1]
+            L3 = len(inner)
+            if not (L3 % 3 == 2 and inner[:(L3 - 2) // 3] == inner[(L3 - 2) // 3 + 1: 2 * ((L3 - 2) // 3) + 1] == inner[2 * ((L3 - 2) // 3) + 2:]):
+                why = 'three evaluations of the same function differ: ' + three[:300]
+        for k in (1, 4, 7):
+            v = vars_of(ls[k])
+            for name, exp in C11_EXPECT.items():
+                if v.get(name) != exp and why is None:
+                    why = 'variable %s changed from %s to %s' % (name, exp, v.get(name))
+        if why is None and not (val(ls[5]) == val(ls[6]) == val(ls[8])):
+            why = 'repeated evaluation gives different results: %s / %s / %s' % (val(ls[5])[:100], val(ls[6])[:100], val(ls[8])[:100])
+        distinct.add((t[:60], val(ls[5])[:40]))
+        if why:
+            nv += 1
+            if nv <= 8: res.violation('mutation', {'expr': t, 'prelude': C11_PRE, 'why': why, 'requests': c.readable(), 'impl': [decode_line(l) for l in ls], 'raw_case': c.text()})
+    res.cov['distinct_nontrivial'] = len(distinct)
+    res.cov['rule'] = ('%d random expressions composed of append (2-3 arguments, nil first argument, consed first argument), sort, mapcar, seq-map, seq-filter, seq-reduce, seq-find, cons, cdr, nthcdr, last, '
+                       'backquote splicing (first / middle / last position), dolist accumulation, assoc, alist-get, plist-get, format, over four list variables, an alist, a plist and quoted literals; '
+                       'each is evaluated three times through one function object and twice at top level; oracle (implementation only): all results print the same and every variable prints as before; '
+                       'correspondence with the model' % n)
+    res.cov['samples'] = exprs[:3]
+    for d in res.pending:
+        res.violation('disagreement', d, no_input=not oracle_confirms(d))
+    return res.finish(gate)
+
+CHECKS['C11'] = check_C11
